@@ -35,8 +35,8 @@ from simkit import c12_multi as _multi  # noqa: E402
 from simkit import c12_misc as _misc  # noqa: E402
 
 PROPERTY = "C12"
-RUNS = {"quick": 6000, "thorough": 300_000}
-WALL = {"quick": 45, "thorough": 1500}
+RUNS = {"quick": 4000, "thorough": 300_000}
+WALL = {"quick": 55, "thorough": 1500}
 BATCH = {"quick": 40, "thorough": 200}
 SELFTEST_RUNS = 10
 SHRINK_BUDGET_S = {"quick": 20.0, "thorough": 90.0}
